@@ -621,7 +621,7 @@ class SwitchController(MpfController):
                 switch.name, state, ms)
 
         for entry in list(self.registered_switches[switch][state]):
-            if entry.ms == ms and entry.callback == callback:
+            if entry.ms == ms and self._is_callback(entry.callback, callback):
                 entry.cancelled = True
                 self.registered_switches[switch][state].remove(entry)
 
@@ -630,7 +630,17 @@ class SwitchController(MpfController):
                 # build a new list. deleting from the list while iterating it would skip entries
                 self._active_timed_switches[switch][k] = [
                     entry for entry in self._active_timed_switches[switch][k]
-                    if not (entry.state == state and entry.ms == ms and entry.callback == callback)]
+                    if not (entry.state == state and entry.ms == ms and
+                            self._is_callback(entry.callback, callback))]
+
+    @staticmethod
+    def _is_callback(registered_callback, callback):
+        """Return true if registered_callback is callback or callback wrapped for return_info."""
+        if registered_callback == callback:
+            return True
+        return (isinstance(registered_callback, partial) and registered_callback.func == callback and
+                not registered_callback.args and
+                set(registered_callback.keywords) == {"switch_name", "state", "ms"})
 
     def log_active_switches(self, **kwargs):
         """Write out entries to the INFO log file of all switches that are currently active."""
